@@ -85,3 +85,36 @@ contract("codemodder.codemods.base_codemod.BaseCodemod._process_file", props=["C
               "all(implies(n in result.line_include, n in file_line_patterns(filename.relative_to(context.directory), context.path_include)"
               " or n in file_line_patterns(filename, context.path_include)) for n in ANY('int'))"),
          ])
+
+# ---- BaseCodemod._apply: worker bound (C11), file list (C05), own-key aggregation (C09) -----------------------------------------
+import concurrent.futures as _cf
+import functools as _ft
+from pyvc import locate as _loc
+external("functools.partial", params=None, returns="Opaque", pure=True, note="functools.partial: a callable value")
+external(_loc.qualname_of(_cf.ThreadPoolExecutor), params={"max_workers": "int | None", "thread_name_prefix": "Opaque", "initializer": "Opaque", "initargs": "Opaque"},
+         returns="Opaque", modifies=["ghost:pool_bounds"],
+         ensures=["pool_bounds == old(pool_bounds) + [val_of(max_workers) if max_workers is not None else -1]"],
+         note="ThreadPoolExecutor(max_workers=n): at most n tasks in flight; None means the library default (not the user's bound)")
+external("opaque.map", params={"self": "Opaque", "fn": "Opaque", "iterable": "list[Opaque]"}, returns="list[FileContext]",
+         modifies=["ghost:fs"], raises_any=True, ensures=["len(result) == len(iterable)"],
+         note="executor.map(f, xs) yields f(x) for every x in input order; a worker's exception is re-raised")
+external("opaque.shutdown", params=None)
+external("opaque.get_provider", params=None, returns="Opaque", pure=True)
+external("opaque.apply", params={"self": "Opaque", "codemod_id": "str", "context": "CodemodExecutionContext"}, returns="ResultSet", raises_any=True,
+         note="detector.apply: the result set for this codemod (reads result files / runs semgrep); no project writes")
+contract("dyn:BaseCodemod.get_files_to_analyze", trusted=True,
+         params={"self": "BaseCodemod", "context": "CodemodExecutionContext", "results": "ResultSet | None"}, returns="list[Path]",
+         note="dynamic dispatch; both implementations are verified for C05 where claimed")
+REG = __import__("pyvc.api", fromlist=["REG"]).REG
+REG.opaque_attrs.update({"is_available": "bool"})
+_AGGS = (("_changesets_by_codemod", "list[ChangeSet]"), ("_failures_by_codemod", "list[Path]"),
+         ("_unfixed_findings_by_codemod", "list[UnfixedFinding]"), ("dependencies", "set[Dependency]"))
+contract("codemodder.codemods.base_codemod.BaseCodemod._apply", props=["C11", "C09"],
+         params={"self": "BaseCodemod", "context": "CodemodExecutionContext", "rules": "list[str]"},
+         modifies=["context._changesets_by_codemod", "context._failures_by_codemod", "context._unfixed_findings_by_codemod",
+                   "context.dependencies", "ghost:fs", "ghost:pool_bounds"], raises_any=True,
+         ensures=[("no more than --max-workers files are processed at the same time: the only pool created is bounded by context.max_workers",
+                   "pool_bounds == old(pool_bounds) or pool_bounds == old(pool_bounds) + [context.max_workers]")] +
+                 [(f"results are merged under this codemod's own id only ({f})",
+                   f"all(implies(q != self.id, lookup(context.{f}, q, typed_empty('{t}')) == lookup(old(context.{f}), q, typed_empty('{t}'))) for q in ANY('str'))")
+                  for f, t in _AGGS])
